@@ -467,9 +467,26 @@ class _Lower(ast.NodeTransformer):
 def _bool_returns(fn: ast.FunctionDef) -> ast.FunctionDef:
     """return <boolean expression>  ->  if <expression>: return True else: return False  (the function is a predicate)."""
     new = copy.deepcopy(fn)
+    # a local every assignment of which is a boolean expression is boolean where it is returned
+    bool_locals: Set[str] = set()
+    assigned: Dict[str, List[ast.AST]] = {}
+    for n in ast.walk(new):
+        if isinstance(n, ast.Assign) and len(n.targets) == 1 and isinstance(n.targets[0], ast.Name):
+            assigned.setdefault(n.targets[0].id, []).append(n.value)
+        elif isinstance(n, (ast.AugAssign, ast.AnnAssign, ast.For, ast.NamedExpr, ast.With)):
+            for x in ast.walk(getattr(n, "target", n)):
+                if isinstance(x, ast.Name) and isinstance(x.ctx, ast.Store):
+                    assigned.setdefault(x.id, []).append(None)
+    params = {a.arg for a in new.args.posonlyargs + new.args.args + new.args.kwonlyargs}
+    for nm, vals in assigned.items():
+        if nm not in params and all(v is not None and _is_boolish(v) and not isinstance(v, ast.Name) for v in vals):
+            bool_locals.add(nm)
 
     class T(ast.NodeTransformer):
         def visit_Return(self, st: ast.Return):
+            if isinstance(st.value, ast.Name) and st.value.id in bool_locals:
+                return ast.copy_location(ast.If(test=st.value, body=[ast.copy_location(ast.Return(value=ast.Constant(value=True)), st)],
+                                                orelse=[ast.copy_location(ast.Return(value=ast.Constant(value=False)), st)]), st)
             if st.value is not None and _is_boolish(st.value) and not isinstance(st.value, ast.Constant):
                 return ast.copy_location(ast.If(test=st.value, body=[ast.copy_location(ast.Return(value=ast.Constant(value=True)), st)],
                                                 orelse=[ast.copy_location(ast.Return(value=ast.Constant(value=False)), st)]), st)
